@@ -740,7 +740,7 @@ private:
     TypeNameSyntax* typeName_ = nullptr;
     LexedTokens::IndexType closeParenTkIdx_ = LexedTokens::invalidIndex();
 
-    AST_CHILD_LST2(expr_, typeName_)
+    AST_CHILD_LST6(kwTkIdx_, openParenTkIdx_, expr_, commaTkIdx_, typeName_, closeParenTkIdx_)
 };
 
 /**
